@@ -28,9 +28,9 @@ ASSUMPTIONS = [
     "scipy contours (seconds each) only in the thorough tier",
 ]
 
-QUERIES = ["cov", "cor", "hessian", "hessian_inv", "asym", "profile_sigma", "profile_cl", "profile_lowhigh", "profile_mix", "contour", "band", "report", "report_asym",
+QUERIES = ["cov", "cor", "hessian", "hessian_inv", "asym", "profile_sigma", "profile_cl", "profile_lowhigh", "profile_mix", "contour", "contour_beacon", "band", "report", "report_asym",
            "result_dict", "result_dict_asym", "plot", "to_file", "save_state", "errors", "values", "gof"]
-EXCURSIONS = {"asym", "profile_sigma", "profile_cl", "profile_lowhigh", "profile_mix", "contour", "report_asym", "result_dict_asym"}
+EXCURSIONS = {"asym", "profile_sigma", "profile_cl", "profile_lowhigh", "profile_mix", "contour", "contour_beacon", "report_asym", "result_dict_asym"}
 
 
 @st.composite
@@ -57,7 +57,8 @@ def strat(draw, tier="quick"):
                 s_["relative"] = False
                 key = "err" if s_["kind"] == "simple" else "e"
                 s_[key] = [v * float(vals.max()) for v in s_[key]]
-    allowed = [q for q in QUERIES if not (mini == "scipy" and q == "contour" and tier == "quick")]
+    # scipy contours take seconds (heuristic grid) to a minute (algorithm='beacon'): thorough tier only; the beacon algorithm exists for the scipy backend only
+    allowed = [q for q in QUERIES if not (mini == "scipy" and q == "contour" and tier == "quick") and not (q == "contour_beacon" and (mini != "scipy" or tier == "quick"))]
     allowed = allowed + [q for q in allowed if q in EXCURSIONS] * 2  # excursion-type queries are the interesting ones
     ops = draw(st.lists(st.fixed_dictionaries({"q": st.sampled_from(allowed), "par": st.integers(0, 3), "k": st.floats(0.5, 2.5), "cl": st.sampled_from([0.6827, 0.9, 0.95]),
                                                   # profile_mix: any combination of an explicit lower / upper end with a sigma or confidence level for the other end(s)
@@ -198,6 +199,16 @@ def run(case):
                 else:
                     res = np.asarray(cpf.get_profile(par, low=snap["p"][pi] - op["k"] * snap["e"][pi], high=snap["p"][pi] + 0.5 * op["k"] * snap["e"][pi]), float)
                 key = (q, par, bool(i % 2), round(op["k"], 6), op["cl"], op.get("mix") if q == "profile_mix" else None)
+            elif q == "contour_beacon":
+                if len(free) < 2 or backend != "scipy":
+                    continue
+                other = free[(op["par"] + 1) % len(free)]
+                if other == par:
+                    continue
+                cont = fit._fitter.contour(par, other, sigma=1.0, algorithm="beacon")
+                res = None
+                key = (q, par, other)
+                labels.add("scipy_contour_beacon")
             elif q == "contour":
                 if len(free) < 2:
                     continue
